@@ -52,6 +52,7 @@ type Model struct {
 type Deviations struct {
 	IncrWraps          bool // INCR/INCRBY/HINCRBY wrap on int64 overflow instead of failing
 	TTLMissingIsMinus1 bool // TTL of a missing key is -1 (Redis: -2)
+	LocalDeletion      bool // local-deletion policy: expiry instants are recorded for background deletion only and never change what commands see
 }
 
 func New() *Model {
@@ -59,7 +60,7 @@ func New() *Model {
 		Dev: Deviations{IncrWraps: true, TTLMissingIsMinus1: true}}
 }
 
-func dead(exp int64, sec int64) bool { return exp != 0 && sec >= exp }
+func dead(exp int64, sec int64) bool { return exp > 0 && sec >= exp }
 
 const (
 	MaxScore = float64(1 << 53) // placeholder; see scoreBounds
@@ -249,7 +250,7 @@ func (m *Model) Apply(ts int64, now int64, args []string) Val {
 		if !ok || d <= 0 || d > math.MaxInt32 {
 			return Err("invalid expire time")
 		}
-		m.KV[a[0]] = &kvVal{v: a[2], exp: sec + d}
+		m.KV[a[0]] = &kvVal{v: a[2], exp: m.instant(sec + d)}
 		return Status("OK")
 	case "getset":
 		if len(a) != 2 {
@@ -310,6 +311,25 @@ func (m *Model) Apply(ts int64, now int64, args []string) Val {
 		cur += a[1]
 		m.KV[a[0]] = &kvVal{v: cur, exp: exp}
 		return Int(int64(len(cur)))
+	case "setrange":
+		if len(a) != 3 {
+			return wrongArgs
+		}
+		off, ok := parseInt(a[1])
+		if !ok || off < 0 {
+			return Err("offset is out of range")
+		}
+		cur, exp := "", int64(0)
+		if v := m.kv(a[0], sec); v != nil {
+			cur, exp = v.v, v.exp
+		}
+		b := []byte(cur)
+		if need := int(off) + len(a[2]); need > len(b) {
+			b = append(b, make([]byte, need-len(b))...)
+		}
+		copy(b[off:], a[2])
+		m.KV[a[0]] = &kvVal{v: string(b), exp: exp}
+		return Int(int64(len(b)))
 	case "strlen":
 		if len(a) != 1 {
 			return wrongArgs
@@ -440,7 +460,7 @@ func (m *Model) cmdSet(sec int64, a []string) Val {
 	}
 	nv := &kvVal{v: a[1]}
 	if dur > 0 {
-		nv.exp = sec + dur
+		nv.exp = m.instant(sec + dur)
 	}
 	m.KV[a[0]] = nv
 	return Status("OK")
@@ -477,15 +497,24 @@ func (m *Model) cmdExpire(name, k string, sec, d int64) Val {
 	if p == nil {
 		return Int(0)
 	}
-	*p = sec + d
+	*p = m.instant(sec + d)
 	return Int(1)
+}
+
+// instant is what gets stored for an expiry instant: under local deletion it is invisible to commands.
+func (m *Model) instant(e int64) int64 {
+	if m.Dev.LocalDeletion {
+		return 0
+	}
+	return e
 }
 
 func (m *Model) cmdPersist(name, k string, sec int64) Val {
 	p := m.expSlot(name, k, sec)
-	if p == nil || *p == 0 {
+	if p == nil {
 		return Int(0)
 	}
+	// deviation (reply only): 1 whenever the key exists, also when it had no expiry (Redis: 0)
 	*p = 0
 	return Int(1)
 }
@@ -1315,4 +1344,11 @@ func (m *Model) applyZSet(name string, a []string, sec int64) Val {
 		return Int(0)
 	}
 	return Err("unknown command " + name)
+}
+
+// KVExpiredPresent reports whether a KV key is dead at second sec but was never overwritten
+// or deleted since (its bytes may still be in the engine until compaction).
+func (m *Model) KVExpiredPresent(k string, sec int64) bool {
+	v := m.KV[k]
+	return v != nil && dead(v.exp, sec)
 }
